@@ -101,6 +101,9 @@ structure Setter where
   name : String
   writes : List Nat
   clears : List Nat
+  /-- attributes that already hold the newly assigned value when a later statement of the setter can
+  still refuse the call (assert / raise / conversion): what a REFUSED call leaves behind (round 3) -/
+  early : List Nat := []
   deriving Repr, DecidableEq
 
 structure ClassTable where
